@@ -317,6 +317,10 @@ pub enum BrokerAct {
     /// this many virtual microseconds after a timer of the client fell due (kept far below the
     /// smallest slack the client plans with, half a second)
     TimerLatency(u64),
+    /// (given while no connection is up) the broker has these packets waiting for the client - its
+    /// session's queued messages - and sends them straight behind the next successful CONNACK,
+    /// in the same segment
+    AfterNextConnack(Vec<SPacket>),
 }
 
 #[derive(Clone, Debug, Serialize, Deserialize, PartialEq)]
